@@ -172,7 +172,7 @@ def purity(job, npts, include_zero, component_index, entry):
                 job.prove("%s/leaf%d/repeatable" % (tag, got), cs, neg, R_, {"entry": entry}, fallback=[{"entry": entry}], timeout=20,
                           congruence=sorted({n for (_, n, _) in Pure.tab.values() if n.startswith("FIT_")}))
         if not got:
-            job.vacuity["failed"].append(tag)
+            job.unreached(tag)
         job.bound(**{"leaves_%s" % tag: got})
 
 
@@ -253,7 +253,7 @@ def best_of(job, npts, n, m, include_zero=False, component_index=0):
                            "returned function is not one of the %d candidates" % len(tried) if not idx else "losses could not be named (%d sums for %d candidates)" % (len(nl), len(tried)),
                            replay={"fn": R_, "inputs": {"entry": "best"}})
         if not got:
-            job.vacuity["failed"].append(tag)
+            job.unreached(tag)
 
 
 def vle(job, nalgs):
@@ -282,7 +282,7 @@ def vle(job, nalgs):
             job.record("%s/leaf%d/all_methods_tried" % (tag, got), "discharged" if ok else "violated", "methods %r" % [c["method"] for c in stub.calls], nontrivial=False,
                        replay={"fn": R_, "inputs": {"entry": "vle"}})
         if not got:
-            job.vacuity["failed"].append(tag)
+            job.unreached(tag)
         # with one requested method: that method only
         for leaf in job.explore(lambda: (stub.calls.clear(), uqf.fit_vle(data, method="Powell"))[1], [], timeout_ms=200):
             if leaf.kind == "returned":
